@@ -78,7 +78,9 @@ def RTol.isWeak : RTol → Bool
 
 /-- threshold `max(max(|a|,|b|) * rel, abs)` as numpy evaluates it for float operands of
     format `F` (f64: all in binary64;  f32: weak scalars are first rounded to binary32, strong
-    operands make the product binary64 which is then cast back by the in-place `*=`). -/
+    operands make the product binary64 — and it STAYS binary64 since the product is computed out of
+    place, `thresholds = thresholds * rel_tol` (fix fa67d80 for finding F22; before that the
+    in-place `*=` cast it back to the array's format)). -/
 def threshold (F : Fmt) (m : Nat) (rel : Nat) (relWeak : Bool) (abs : Nat) (absWeak : Bool) : Option Nat :=
   let prod : Option Nat :=
     if F = f64 then rndMag f64 (m * rel) UNIT
@@ -87,9 +89,7 @@ def threshold (F : Fmt) (m : Nat) (rel : Nat) (relWeak : Bool) (abs : Nat) (absW
       | none => none
       | some r => rndMag F (m * r) UNIT
     else
-      match rndMag f64 (m * rel) UNIT with
-      | none => none
-      | some p => rndMag F p 0
+      rndMag f64 (m * rel) UNIT
   let a : Option Nat := if F = f64 then some abs else if absWeak then rndMag F abs 0 else some abs
   maxInf prod a
 
